@@ -43,7 +43,7 @@ ASSUMPTIONS = ["ASan reports the first write past a stack array (redzones >= 32 
                "no generated input makes decode read tag[] beyond the bytes written (Length field followed by a longer "
                "tag): that read of uninitialised stack is unobservable under ASan (model class OOB 4, C06's defect)",
                "a run that burns > 2 s CPU or grows by > 1 GB is a hang (legitimate 8 KB decodes take milliseconds); every HANG "
-               "verdict is confirmed by a second isolated run"]
+               "verdict has to be reproduced in fresh processes (once for inputs of the hang shape, twice otherwise)"]
 RULE = ("valid messages generated from the dumped metadata (wire bytes built independently in Python, and RT through the "
         "real encoder); malformed stream derived from them: truncation at every offset, byte flips (NUL, SOH, '=', digits, "
         ">= 0x80), deleted '=' / SOH, tags of 31/32/33/2047/2048/2049 digits and tags >= 65536, values of "
@@ -79,7 +79,7 @@ def build(tier):
 # no symbolisation and no DWARF unwinding inside the crashing child (seconds of CPU per report on a
 # 40 MB binary): the frame is reported as an offset and resolved here with one `nm` per binary
 ENV = {"ASAN_OPTIONS": "detect_leaks=0:abort_on_error=0:halt_on_error=1:allocator_may_return_null=1:"
-                       "detect_stack_use_after_return=0:hard_rss_limit_mb=6000:symbolize=0:fast_unwind_on_fatal=1",
+                       "detect_stack_use_after_return=0:symbolize=0:fast_unwind_on_fatal=1",
        "UBSAN_OPTIONS": "print_stacktrace=0:halt_on_error=1"}
 def risky(case, rest):
     """Run the case in a forked child?  Exactly those expected to end abnormally (a miss only costs
@@ -111,7 +111,7 @@ def _meta_of(case):
     return built["metas"][schema]
 
 
-def run_chunk(exe, lines, flags, confirm=True):
+def run_chunk(exe, lines, flags, confirm=True, expected=()):
     """Line protocol with crash recovery: a case that kills the harness is re-run isolated ('!')."""
     n = len(lines)
     res = [None] * n
@@ -140,12 +140,15 @@ def run_chunk(exe, lines, flags, confirm=True):
             else:
                 forced.add(start)
     # a HANG verdict rests on CPU / memory accounting of a child on a possibly overloaded machine:
-    # confirm each one by a second isolated run
-    hangs = [k for k in range(n) if res[k] == "HANG"]
-    if hangs and confirm:
-        again = run_chunk(exe, [lines[k] for k in hangs], [True] * len(hangs), confirm=False)
-        for k, r in zip(hangs, again):
-            res[k] = r
+    # it must be reproduced in fresh processes (once if the input has the hang shape, twice otherwise)
+    if confirm:
+        for rnd in range(2):
+            hangs = [k for k in range(n) if res[k] == "HANG" and not (rnd == 1 and k in expected)]
+            if not hangs:
+                break
+            again = run_chunk(exe, [lines[k] for k in hangs], [True] * len(hangs), confirm=False)
+            for k, r in zip(hangs, again):
+                res[k] = r
     return res
 
 
@@ -155,7 +158,14 @@ def run_impl(built, cases, tier):
     by = {}
     for k, c in enumerate(cases):
         s, rest = G.schema_of(c.line, default)
-        by.setdefault(s, []).append((k, rest, risky(c, rest)))
+        exp = False
+        w = rest.split(" ")
+        if w[0] in ("DEC", "REENC") and len(w) == 3:
+            try:
+                exp = hang_shape(built["metas"][s], bytes.fromhex(w[2]) if w[2] != "-" else b"")
+            except Exception:
+                exp = False
+        by.setdefault(s, []).append((k, rest, risky(c, rest), exp))
     jobs = []
     workers = 8
     for s, items in by.items():
@@ -165,9 +175,10 @@ def run_impl(built, cases, tier):
             if part:
                 jobs.append((built["exes3"][s], part))
     with ThreadPoolExecutor(max_workers=workers) as ex:
-        outs = list(ex.map(lambda j: run_chunk(j[0], [x[1] for x in j[1]], [x[2] for x in j[1]]), jobs))
+        outs = list(ex.map(lambda j: run_chunk(j[0], [x[1] for x in j[1]], [x[2] for x in j[1]],
+                                               expected={i for i, x in enumerate(j[1]) if x[3]}), jobs))
     for (exe, part), out in zip(jobs, outs):
-        for (k, _, _), r in zip(part, out):
+        for (k, _, _, _), r in zip(part, out):
             res[k] = r
     return res
 
